@@ -515,6 +515,43 @@ func (c *Check) scanOrder(rule string) {
 		}
 		c.req(i9 >= 0 && i10 >= 0 && i9 < i10, rule, unitConstruct(f, "expired-before-new"), f.Body.Pos(),
 			"the expired-batch queue is scanned before the new-batch queue (bindings disabled by a slash in this block are seen by the filter)")
+		// the new-batch queue is read only after the expired batches were handled: their handler queues next batches
+		// for this very height (frequency = timeout), which a snapshot taken beforehand would miss
+		iHandled := -1
+		for i, ev := range pa.Events {
+			if ev.Kind != EvCall {
+				continue
+			}
+			for _, e := range c.P.effectsOfEvent(f, ev) {
+				for _, nm := range e.Chain {
+					if nm == u.EB.Closure.Name {
+						iHandled = i
+					}
+				}
+				if e.Fn == u.EB.Closure {
+					iHandled = i
+				}
+			}
+		}
+		if iHandled < 0 {
+			// no expired batch is handled on this path (an empty queue in the gathered form): judge a path that handles one
+			handledLater := false
+			for _, pb := range c.P.PathsOf(f) {
+				if pb == pa || !pb.OK() {
+					continue
+				}
+				for _, ev := range pb.Events {
+					if ev.Kind == EvCall && ev.CI.fn == u.EB.Closure {
+						handledLater = true
+					}
+				}
+			}
+			if handledLater {
+				continue
+			}
+		}
+		c.req(iHandled >= 0 && i10 >= iHandled, rule, unitConstruct(f, "new-queue-read-after-expiry-handling"), f.Body.Pos(),
+			"the new-batch queue is scanned after (or by the call following) the handling of the expired batches")
 		return
 	}
 }
